@@ -1705,6 +1705,8 @@ type walker struct {
 	cutStmt ast.Stmt
 	// exits: when set, the states at return statements are accumulated here.
 	exits *vset
+	// failingExit: returns that abandon the operation (a non-nil error) are not exits of interest
+	failingExit func(*ast.ReturnStmt) bool
 }
 
 func prefixOf(p, q string) bool {
@@ -2553,7 +2555,7 @@ func (w *walker) stmt(st ast.Stmt, s vset) vset {
 		if w.contains(t) {
 			w.record(s)
 		}
-		if w.exits != nil {
+		if w.exits != nil && (w.failingExit == nil || !w.failingExit(t)) {
 			for _, r := range t.Results {
 				s = w.effects(r, s)
 			}
